@@ -187,6 +187,7 @@ func (t *tr) render(p *packages.Package, e ast.Expr, depth int) string {
 
 var reMultisig = regexp.MustCompile(`^contract\.CreateMultisigAccount\((.+),neo\.GetCommittee\(\)\)$`)
 var siteThresholds = map[string]bool{}
+var reNeofsAlpha = regexp.MustCompile(`^(neofs\.multiaddress\(|common\.Multiaddress\()neofs\.getAlphabetNodes\([a-zA-Z.]*(\(\))?\)(,false)?\)$`)
 
 // canonical names of the recurring witness subjects
 func canon(s string) string {
@@ -217,6 +218,12 @@ func canon(s string) string {
 				return "committee"
 			}
 		}
+	}
+	// the main-chain NeoFS contract computes its Alphabet address from its OWN stored key list: AlphabetAddress() is
+	// multiaddress(getAlphabetNodes(ctx)); the body written out, or the common helper applied to the same list, is the same account
+	// (the threshold of every function that builds a multi-signature account is covered by the threshold theorems)
+	if reNeofsAlpha.MatchString(s) {
+		return "neofs.AlphabetAddress()"
 	}
 	if strings.HasSuffix(s, ").Owner") {
 		return "state.Owner"
@@ -1079,10 +1086,13 @@ func accessMain(repo, outLean, outJSON string) {
 	fmt.Fprintf(&b, "def methods : List MethodIR := [%s]\n\n", strings.Join(ids, ", "))
 	// the threshold expressions of common.Multiaddress and nns.checkCommittee: the first argument of their
 	// CreateMultisigAccount call, as text (for the reader) and as a TExpr value (for the theorems)
+	var otherSites []string
+	thrText, thrExpr := map[string]string{}, map[string]string{}
 	emitThr := func(name string, e ast.Expr, fd *ast.FuncDecl) {
-		fmt.Fprintf(&b, "def %s : String := %s\n", name, leanStr(strings.ReplaceAll(types.ExprString(e), " ", "")))
-		fmt.Fprintf(&b, "def %sE : Option NeoFS.TExpr := %s\n", name, texprOpt(e, fd))
+		thrText[name] = strings.ReplaceAll(types.ExprString(e), " ", "")
+		thrExpr[name] = texprOpt(e, fd)
 	}
+	nnsUsesCommon := false
 	for _, p := range pkgs {
 		for _, f := range p.Syntax {
 			for _, d := range f.Decls {
@@ -1093,6 +1103,16 @@ func accessMain(repo, outLean, outJSON string) {
 				isMA := pshort(p.PkgPath) == "common" && fd.Name.Name == "Multiaddress"
 				isNNS := pshort(p.PkgPath) == "nns" && fd.Name.Name == "checkCommittee"
 				if !isMA && !isNNS {
+					// any other function that builds a multi-signature account from a key list (neofs.multiaddress): listed with its
+					// threshold; Props/C03 demands that each of them is the Alphabet threshold 2n/3+1
+					ast.Inspect(fd.Body, func(nd ast.Node) bool {
+						if ce, ok := nd.(*ast.CallExpr); ok && len(ce.Args) == 2 {
+							if se, ok := ce.Fun.(*ast.SelectorExpr); ok && se.Sel.Name == "CreateMultisigAccount" {
+								otherSites = append(otherSites, fmt.Sprintf("(%s, %s)", leanStr(pshort(p.PkgPath)+"."+fd.Name.Name), texprOpt(ce.Args[0], fd)))
+							}
+						}
+						return true
+					})
 					continue
 				}
 				var arg ast.Expr
@@ -1105,6 +1125,18 @@ func accessMain(repo, outLean, outJSON string) {
 					return true
 				})
 				if arg == nil {
+					if isNNS {
+						// no multi-signature account built in place: does checkCommittee ask the common helper for the committee account?
+						ast.Inspect(fd.Body, func(nd ast.Node) bool {
+							if ce, ok := nd.(*ast.CallExpr); ok {
+								switch strings.ReplaceAll(t.render(p, ce, 0), " ", "") {
+								case "common.CommitteeAddress()", "common.Multiaddress(neo.GetCommittee(),true)":
+									nnsUsesCommon = true
+								}
+							}
+							return true
+						})
+					}
 					continue
 				}
 				if isNNS {
@@ -1152,12 +1184,27 @@ func accessMain(repo, outLean, outJSON string) {
 			}
 		}
 	}
+	// NNS either builds the committee account itself or delegates to the common helper: then its threshold is the helper's
+	if _, ok := thrExpr["nnsCommitteeThreshold"]; !ok && nnsUsesCommon {
+		thrText["nnsCommitteeThreshold"] = "common.CommitteeAddress():" + thrText["multiaddressCommitteeThreshold"]
+		thrExpr["nnsCommitteeThreshold"] = thrExpr["multiaddressCommitteeThreshold"]
+	}
+	for _, name := range []string{"multiaddressDefaultThreshold", "multiaddressCommitteeThreshold", "nnsCommitteeThreshold"} {
+		e := thrExpr[name]
+		if e == "" {
+			e = "none"
+		}
+		fmt.Fprintf(&b, "def %s : String := %s\n", name, leanStr(thrText[name]))
+		fmt.Fprintf(&b, "def %sE : Option NeoFS.TExpr := %s\n", name, e)
+	}
 	var sts []string
 	for k := range siteThresholds {
 		sts = append(sts, k)
 	}
 	sort.Strings(sts)
 	fmt.Fprintf(&b, "def committeeMultisigThresholds : List (Option NeoFS.TExpr) := [%s]\n", strings.Join(sts, ", "))
+	sort.Strings(otherSites)
+	fmt.Fprintf(&b, "def otherMultisigSites : List (String × Option NeoFS.TExpr) := [%s]\n", strings.Join(otherSites, ", "))
 	b.WriteString("\nend NeoFS.Generated.Access\n")
 	writeIfChanged(outLean, b.String())
 	js, _ := json.MarshalIndent(map[string]any{"methods": outs, "unknown_calls": t.unknown}, "", " ")
